@@ -160,6 +160,7 @@ class IoModel:
         R("Error::kind", m_err_kind)
         R("Error::new", lambda ex, st, fr, c, a, d, r: VOpaque("ioerr", {"kind": a[0], "injected": False}))
         R(["ErrorKind as PartialEq::eq"], m_errkind_eq)
+        R(["ErrorKind as PartialEq::ne"], lambda ex, st, fr, c, a, d, r: VBool(z3.Not(m_errkind_eq(ex, st, fr, c, a, d, r).t)))
         R(["dyn StdError as StdError::source", "CasManagerError as StdError::source"], m_err_source)
         R("(dyn StdError + 'static)::downcast_ref", lambda ex, st, fr, c, a, d, r: m_downcast(ex, st, a))
         # ---- tempfile
@@ -195,6 +196,10 @@ class IoModel:
         R(["Vec::len", "slice::len"], m_len_or_bytes)
         R("SegmentStorage::discover_segments", m_discover_segments(io))
         R("CasManager::read_blob_range", m_read_blob_range(io))
+        # ---- settings (serde_json) and recovery entry, abstracted for the open-gate properties
+        R("serde_json::from_str", m_settings_from_str)
+        R("serde_json::to_string", lambda ex, st, fr, c, a, d, r: ok(VOpaque("bytes", ("settings-json", deref_all(st, a[0])))))
+        R("pre_create_all_cas_directories", lambda ex, st, fr, c, a, d, r: io.call(ex, st, d, r, "mkdir", VUnit(), path=("cas", "65536 dirs")))
         # ---- threads / channels
         R("mpsc::channel", lambda ex, st, fr, c, a, d, r: VStruct("tuple", [VOpaque("sender"), VOpaque("receiver")]))
         R("thread::spawn", lambda ex, st, fr, c, a, d, r: (st.event("spawn"), VOpaque("joinhandle"))[1])
@@ -496,6 +501,7 @@ def m_len_or_bytes(ex, st, fr, c, a, d, r):
         lens = st.meta.setdefault("oplens", {})
         if key not in lens:
             lens[key] = ex.new_int(st, "usize", "len").t
+            st.pc.append(lens[key] <= (1 << 63) - 1)
         return VInt(lens[key], "usize")
     return VInt(len(seq(st, a[0]).elems), "usize")
 
@@ -597,3 +603,24 @@ def m_builder_make(io):
         io.new_file(st, ("staging", "fixed-name"), create=True, truncate=True, write=True)
         return io.call(ex, st, d, r, "open", tmp, path=("staging", "fixed-name"), flags=dict(create=True, truncate=True, write=True))
     return f
+
+
+def m_settings_from_str(ex, st, fr, c, a, d, r):
+    """serde_json::from_str::<DbSettings>: an arbitrary DbSettings value, or a parse error"""
+    outs = []
+    bad = ex.fresh("settings_unparsable", "bool")
+    if ex.feasible(st.pc, bad):
+        s2 = st.clone()
+        s2.pc.append(bad)
+        outs += ex.finish_call(s2, d, r, err(VOpaque("serde-error")))
+    st.pc.append(z3.Not(bad))
+    ver = st.meta.get("stored_version")
+    if ver is None:
+        ver = ex.new_int(st, "u32", "stored_version").t
+        pre = ex.fresh("stored_precreated", "bool")
+        n = ex.new_int(st, "u64", "stored_N").t
+        st.pc.append(n >= 1)
+        st.meta["stored_version"], st.meta["stored_precreated"], st.meta["stored_N"] = ver, pre, n
+    v = VStruct("DbSettings", [VInt(ver, "u32"), VBool(st.meta["stored_precreated"]), VInt(st.meta["stored_N"], "u64")])
+    outs += ex.finish_call(st, d, r, ok(v))
+    return outs
